@@ -408,7 +408,37 @@ def build_c(ast, unit, registry):
                 continue
             if c not in have and c not in missing and not any(re.match(rx + '$', c) for rx in stub_rx):
                 missing.append(c)
-    facts = {'target': tf.cname, 'src': tf.src, 'locals': tf.locals, 'loops': tf.loops,
+    # fallback: an unaccounted callee that is a loop-free repo function (getter, small helper) is inlined as real code, transitively
+    # (depth <= 3); anything else stays unresolved (=> undecided, exit 2)
+    leaf = []
+    for _round in range(3):
+        if not missing:
+            break
+        still = []
+        for c in missing:
+            nf = None
+            for f, _, _ in fns:
+                d = f.calldecls.get(c)
+                dd = ast.decl2def.get(d['id']) if d else None
+                if dd is not None:
+                    try:
+                        cand = L.lower_function(dd)
+                    except LowerError:
+                        cand = None
+                    if cand is not None and cand.loops == 0 and cand.cname == c:
+                        nf = cand
+                    break
+            if nf is None:
+                still.append(c)
+                continue
+            have.add(c)
+            fns.append((nf, '', {}))
+            leaf.append(c)
+            for c2 in nf.calls:
+                if c2 not in have and c2 not in still and c2 not in missing and not any(re.match(rx + '$', c2) for rx in stub_rx):
+                    still.append(c2)
+        missing = still
+    facts = {'target': tf.cname, 'src': tf.src, 'locals': tf.locals, 'loops': tf.loops, 'leaf_inlined': leaf,
              'calls': sorted(set(tf.calls)), 'libcalls': sorted(set(tf.libcalls)), 'replaced': replaced,
              'inlined': [f.cname for f, _, _ in fns[1:]], 'unresolved_callees': missing, 'rules': tf.rules}
     for k in uloops:
